@@ -478,6 +478,43 @@ def run_rpow_complex(u, out):
                     out['fails'].append({'sig': 'C02|rpow|%s|value' % bn, 'case': case, 'detail': {'max_scaled_error': float(np.max(err)) if res.shape == ref.shape else -1}})
 
 
+def run_xpowy_complex(u, out):
+    """polynomial ** polynomial with a COMPLEX base: x ** 2 (exponent a constant polynomial) equals x * x, x ** y * x ** (-y) = 1 and
+    x ** (y1 + y2) = x ** y1 * x ** y2 - identities of the complex power with the principal logarithm, for base points in all
+    four quadrants"""
+    for (D, P) in DPS[u['tier']]:
+        for shape in [(), (2,), (2, 2)]:
+            x = fill_utpm(D, P, shape, True, 'dense', D + 3, False)
+            n = int(np.prod(shape, dtype=int)) if shape else 1
+            quad = np.array([(1.5 + 0.5j), (-1.25 + 0.75j), (-0.5 - 1.5j), (2.0 - 0.25j)])
+            x[0] = np.resize(quad, (P * n,)).reshape((P,) + shape)
+            y = fill_utpm(D, P, shape, False, 'dense', D + 5, False) * 0.5
+            case = {'kind': 'xpowy_complex', 'D': D, 'P': P, 'shape': list(shape), 'tier': u['tier']}
+            out['evals'] += 1
+            out['nontrivial'] += 1
+            try:
+                X = UTPM(x.copy())
+                two = UTPM(np.concatenate([np.full((1, P) + shape, 2.0), np.zeros((D - 1, P) + shape)]))
+                sq = (X ** two).data
+                ref = (X * X).data
+                Y = UTPM(y.copy())
+                one = ((X ** Y) * (X ** (-Y))).data
+                lhs = (X ** (Y + two)).data
+                rhs = ((X ** Y) * (X * X)).data
+            except Exception as e:
+                out['fails'].append({'sig': 'C02|x**y complex base|raises', 'case': case, 'detail': {'error': str(e)[:200]}})
+                continue
+            e1 = np.abs(sq - ref) / (1.0 + np.abs(ref))
+            ident = np.zeros_like(one)
+            ident[0] = 1.0
+            e2 = np.abs(one - ident)
+            e3 = np.abs(lhs - rhs) / (1.0 + np.abs(rhs))
+            for nm, e in (('x**2 != x*x', e1), ('x**y * x**(-y) != 1', e2), ('x**(y+2) != x**y * x*x', e3)):
+                if not np.iscomplexobj(sq) or not np.all(e <= 1e-11):
+                    out['fails'].append({'sig': 'C02|x**y complex base|%s' % nm, 'case': case, 'detail': {'max_error': float(np.max(e))}})
+                    break
+
+
 ALIAS_FORMS = ['same', 'reversed', 'transposed', 'overlap', 'row0', 'element']
 
 
@@ -599,6 +636,7 @@ def run_unit(u):
     if u['kind'] == 'rpow':
         run_rpow(u, out)
         run_rpow_complex(u, out)
+        run_xpowy_complex(u, out)
         return out
     if u['kind'] == 'pow':
         run_pow(u, out)
@@ -625,6 +663,9 @@ def replay(case):
     if case.get('kind') == 'alltuples':
         run_alltuples(case, out)
         return out['fails']
+    if case.get('kind') == 'xpowy_complex':
+        run_xpowy_complex({'tier': case.get('tier', 'quick')}, out)
+        return [f for f in out['fails'] if all(f['case'].get(k) == case.get(k) for k in ('D', 'P', 'shape'))]
     if case.get('kind') == 'rpow_complex':
         run_rpow_complex({'tier': case.get('tier', 'quick')}, out)
         return [f for f in out['fails'] if all(f['case'].get(k) == case.get(k) for k in ('base', 'D', 'P', 'shape'))]
